@@ -12,7 +12,7 @@ LEVEL_NOTE = "Trusts the pyvc encoding (symbolic dict semantics), A-EVAL for the
 TECHNIQUE = "contract-based deductive verification (VCs from the ast of the real functions, z3/cvc5)"
 UNITS = [CK.unit_c05_sweep(), CK.unit_k1_witness(), CK.unit_is_unique_check_row(), CK.unit_check_resets(), CK.unit_distinct_count(), VIO.unit_validate_row(), VIO.unit_reader_rows(), VIO.unit_close()]
 from contracts import fields as FL
-UNITS += [CK.unit_is_unique_init(), CK.unit_distinct_count_init(), CK.unit_audit_first_token(), FL.unit_field_name_index()]
+UNITS += [CK.unit_is_unique_init(), CK.unit_distinct_count_init(), CK.unit_audit_first_token(), CK.unit_audit_count_expression(), FL.unit_field_name_index()]
 UNITS += [VIO.unit_raw_rows().also("C05")]
 UNITS += [VIO.unit_reader_close()]
 from props import _groups as _G
